@@ -1,6 +1,7 @@
 """C04 - the enumerated valid design vectors are exactly the architectures, one each (DESIGN.md 6/C04)"""
 import numpy as np
 from hypothesis import strategies as st
+from ..strat import ints
 from .. import specs, refsel, proc
 from ..core import Result, viol, exc_sig
 from ..observe import observe, decode_one
@@ -17,16 +18,16 @@ BUDGET = {'quick': 200, 'thorough': 4000}
 
 @st.composite
 def _case(draw, tier):
-    if draw(st.integers(0, 4)) == 0:
+    if draw(ints(0, 4)) == 0:
         return {'spec': draw(specs.conn_dv_spec()), 'enc': 'COMPLETE', 'vseed': 0}
     spec = draw(specs.sel_spec(max_nodes=9 if tier == 'quick' else 11))
-    r = draw(st.integers(0, 99))
+    r = draw(ints(0, 99))
     if r < 20:
         spec = draw(specs.add_constraint(spec))
-    r = draw(st.integers(0, 99))
+    r = draw(ints(0, 99))
     if r < 35:
-        spec = draw(specs.add_conns(spec, max_choices=1 if draw(st.integers(0, 3)) else 2, small=draw(st.booleans())))
-    r = draw(st.integers(0, 99))
+        spec = draw(specs.add_conns(spec, max_choices=1 if draw(ints(0, 3)) else 2, small=draw(st.booleans())))
+    r = draw(ints(0, 99))
     if r < 40:
         spec = draw(specs.add_dvs(spec))
     return {'spec': spec, 'enc': 'COMPLETE', 'vseed': 0}
